@@ -2,6 +2,7 @@ INIT Init
 NEXT MCNext
 CONSTANTS
   Stacks <- StackFull2
+  Indeps <- Both
   Targets <- AllTargets
   MaxHooks = 0
   InitRegs <- WRegs
